@@ -296,6 +296,9 @@ pub fn special_asts() -> Vec<Ast> {
         Ast::ConcatList(vec![Ast::Range(A + 2, A + 2), Ast::Loop(a(), 0, 2), Ast::Loop(a(), 0, 2), Ast::Range(A + 2, A + 2)]),
         Ast::ConcatList(vec![Ast::Star(a()), Ast::Star(a()), Ast::Eps, Ast::Range(A + 1, A + 1)]),
         Ast::ConcatList(vec![]),
+        // unions of complements where one complemented operand includes the other (subsumption of complement pairs)
+        Ast::Union(vec![Ast::Comp(Box::new(Ast::Range(A, A))), Ast::Comp(Box::new(Ast::Range(A, A + 3)))]),
+        Ast::Union(vec![Ast::Comp(Box::new(Ast::Str(vec![A, A + 1]))), Ast::Comp(Box::new(Ast::Concat(Box::new(Ast::Str(vec![A, A + 1])), Box::new(Ast::Full))))]),
         // derivative classes that leave exactly one character (the last one / the first one) to the complementary class
         Ast::Range(0, MAXC - 1),
         Ast::Range(1, MAXC),
@@ -806,6 +809,17 @@ pub fn automata_checks(ctx: &mut Ctx, which: &str) -> Option<Failure> {
                     for c in [0u32, 1, A - 1, A, A + 1, A + 2, A + 3, MAXC - 1, MAXC] {
                         if let Err(p) = guarded(|| a.next(a.state(q), c).id()) {
                             return fail("Automaton::next(total)", format!("{} state {} char {}", show(&ast), q, c), "a successor".into(), p);
+                        }
+                    }
+                    // char_set_next: an answer for a set is the successor of every character of the set
+                    for (lo, hi) in [(A, A), (A, A + 1), (A, A + 3), (A - 1, A + 2), (0, MAXC), (A + 1, MAXC), (0, A)] {
+                        if let Ok(r) = a.char_set_next(a.state(q), &CharSet::range(lo, hi)) {
+                            for c in [lo, hi, (lo + hi) / 2, A, A + 1, A + 2, A + 3] {
+                                if lo <= c && c <= hi && a.next(a.state(q), c).id() != r.id() {
+                                    return fail("Automaton::char_set_next", format!("{} state {} set [{},{}]", show(&ast), q, lo, hi),
+                                        format!("Err, or the successor of every character of the set (next on {} gives state {})", c, a.next(a.state(q), c).id()), format!("Ok(state {})", r.id()));
+                                }
+                            }
                         }
                     }
                 }
